@@ -69,6 +69,7 @@ FIRST_MISS = {
  "C11-11": "code that ends exactly at 2^64 / 2^32 in C11 (added from the report, before the first attempt - as for all of round 6b)",
  "C12-11": "hooks that stop and then try to register",
  "C12-12": "hooked instructions that fail by themselves after a before-hook stopped the run",
+ "C12-13": "the same callback reference registered more than once (`hookdup`: other phase, same phase, other mnemonic)",
  "C13-11": "break argument equal to the heap base exactly",
  "C14-11": "foreign descriptors with NULL / unmapped / overlong buffers",
  "C15-12": "entry point carrying the only symbol",
